@@ -129,7 +129,8 @@ func c06hist(r *core.Recorder, p *rig.ProxyRig, o *rig.Origin, w *c06world, mode
 	// model
 	stored := 0 // version the proxy must hold (0 = nothing)
 	stale := false
-	replacedBelow := 0 // versions < this have been replaced by a 200 and must never be served again
+	renewedBy304 := false // the entry's lifetime was just renewed by a 304 and nothing has made it stale since
+	replacedBelow := 0    // versions < this have been replaced by a 200 and must never be served again
 	var trace []c06step
 	cs := map[string]any{"id": id, "kind": kind, "ops": strings.Join(ops, ","), "backend": backend, "transport": string(mode)}
 	viol := func(sig, what string) {
@@ -143,6 +144,7 @@ func c06hist(r *core.Recorder, p *rig.ProxyRig, o *rig.Origin, w *c06world, mode
 			if stored != 0 {
 				if err := p.P.VerifCacheSetExpires(key, time.Now().Add(-time.Hour)); err == nil {
 					stale = true
+					renewedBy304 = false
 				}
 			}
 			trace = append(trace, step)
@@ -235,6 +237,12 @@ func c06hist(r *core.Recorder, p *rig.ProxyRig, o *rig.Origin, w *c06world, mode
 				if step.BodyV != stored {
 					viol("hit-serves-wrong-version", fmt.Sprintf("fresh entry v%d expected, body is v%d", stored, step.BodyV))
 				}
+			} else if renewedBy304 {
+				viol("304-did-not-renew-lifetime", fmt.Sprintf("the entry v%d was revalidated with a 304 a moment ago (default lifetime 1 h), yet the next request contacted the origin again", stored))
+				renewedBy304 = false
+				if resp.Status == 200 && step.BodyV > 0 {
+					stored = step.BodyV
+				}
 			} else {
 				r.NotJudged("fresh-entry-but-origin-contacted") // early contact: C03/C04 matter
 				// resynchronise the model from what happened
@@ -305,6 +313,7 @@ func c06hist(r *core.Recorder, p *rig.ProxyRig, o *rig.Origin, w *c06world, mode
 					viol("304-not-labelled-revalidated", "after a 304 the response is labelled X-Cache="+resp.Get("X-Cache"))
 				}
 				stale = false // renewed by the default lifetime (1 h here)
+				renewedBy304 = true
 				r.Count("revalidated_304", 1)
 			case g.Status == 200:
 				if resp.Status != 200 || step.BodyV != cur {
@@ -314,6 +323,7 @@ func c06hist(r *core.Recorder, p *rig.ProxyRig, o *rig.Origin, w *c06world, mode
 					r.Count("extra_origin_requests_on_replacement", int64(len(got)-1))
 				}
 				replacedBelow, stored, stale = cur, cur, false
+				renewedBy304 = false
 				replacements++
 				r.Count("replaced_200", 1)
 			}
